@@ -77,7 +77,7 @@ def run(prog, world, sem, rep):
              "does so only when both are non-zero (otherwise 1)", 2)
     rep.rule("C03.b", "call-site pairing: wherever a pricing operation stores a recomputed X rate, the numerator is the X pool value stored in the same "
              "write, and the denominator is (X token supply queried from the registered X token, adjusted by exactly the X amounts this "
-             "operation mints / burns) + the pending X requests of the current batch", 12)
+             "operation mints / burns) + the pending X requests of the current batch", 9)
     rep.rule("C03.c", "price pairing: every minted amount is floor(coin value / State.X_exchange_rate) for the token X it is minted on; the coin value "
              "is the payment (bond) or source-token amount x source-token rate (convert); messages go to registered tokens only", 4)
     rep.rule("C03.d", "zero-payment guard: the payment is the coin selected from info.funds whose denom is Parameters.underlying_coin_denom and whose "
